@@ -49,3 +49,36 @@ Example C05_example : wf ex_x /\ positive_shape (ashape ex_x) /\
   = [Some (6, 1); Some (6, 1); Some (15, 1); Some (2, 1); Some (3, 1); None;
      Some (13, 1); Some (3, 1); Some (2, 1); None; None; None]%Z.
 Proof. split; [reflexivity|]. split; [repeat constructor|]. split; vm_compute; reflexivity. Qed.
+
+(* ---- beyond the rationals: spectra holding infinities and NaN (Model/Ext.v). Which cells take the fill value depends on
+   the index alone; every other cell is x + mirror (0.5 x + 0.5 mirror on the diagonal) in IEEE arithmetic, whatever
+   that evaluates to - a kept cell that is NaN stays NaN under every fill; on finite spectra this is the model above. *)
+From Sfs Require Import Ext ExtP.
+Theorem C05_ext_filled_iff : forall (x : espectrum) i, i < length (adata x) ->
+  (nth i (e_fold_cells x) None = None <-> (lsum (ashape x) - length (ashape x)) / 2 < index_sum_from_flat (ashape x) i).
+Proof. exact e_fold_cells_none_iff. Qed.
+Print Assumptions C05_ext_filled_iff.
+
+Theorem C05_ext_kept_independent_of_fill : forall (x : espectrum) f f' i v,
+  nth i (e_fold_cells x) None = Some v ->
+  nth i (adata (e_fold x f)) f = v /\ nth i (adata (e_fold x f')) f' = v.
+Proof. exact e_fold_kept_independent_of_fill. Qed.
+Print Assumptions C05_ext_kept_independent_of_fill.
+
+Theorem C05_ext_below_diagonal : forall (x : espectrum) i,
+  i < length (adata x) -> index_sum_from_flat (ashape x) i < (lsum (ashape x) - length (ashape x)) / 2 ->
+  nth i (e_fold_cells x) None = Some (ev_add (nth i (adata x) ev_zero) (nth (length (adata x) - 1 - i) (adata x) ev_zero)).
+Proof. exact e_fold_below_diagonal. Qed.
+Print Assumptions C05_ext_below_diagonal.
+
+Theorem C05_ext_on_finite : forall x : spectrum, e_fold_cells (embed x) = map (option_map Fin) (fold_cells x).
+Proof. exact e_fold_cells_embed. Qed.
+Print Assumptions C05_ext_on_finite.
+
+Example C05_ext_example :
+  let q (z : Z) := Fin (Q2Qc (z # 1)) in
+  e_fold {| adata := [q 1%Z; NaN; q 3%Z; PInf]; ashape := [4] |} (q 0%Z) =
+    {| adata := [PInf; NaN; q 0%Z; q 0%Z]; ashape := [4] |} /\
+  e_fold {| adata := [PInf; q 2%Z; NInf]; ashape := [3] |} (q (-1)%Z) =
+    {| adata := [NaN; q 2%Z; q (-1)%Z]; ashape := [3] |}.
+Proof. cbv zeta. split; vm_compute; reflexivity. Qed.
